@@ -187,9 +187,8 @@ def run(prog, tier) -> Result:
         a, b, x, y = (c.unit(n, "M") for n in ("ua", "ub", "ux", "uy"))
         return c.rate("r1", a, b), c.rate("r2", x, y)
     check_pair(prog, res, "R19.1", "ExchangeRate.__hash__", "two rates", rpair)
-    term_rules(prog, res)
     from .c07 import equality_scenarios
     equality_scenarios(prog, res, "R19.1t")     # Term: same-value terms compare and hash equal (deep evaluation)
-    res.require("R19.1", 12)
+    res.require("R19.1", 11)
     res.require("R19.1t", 16)
     return res
